@@ -88,7 +88,20 @@ def run_history(Client, hist, dnr, pfx, idx, out, kind="Client"):
         client = PooledClient(("h", 1), socket_module=FakeSocketModule(world), default_noreply=dnr, key_prefix=pfx, max_pool_size=2)
     else:
         from pymemcache.client.hash import HashClient
-        client = HashClient([("h", 1)], socket_module=FakeSocketModule(world), default_noreply=dnr, key_prefix=pfx, use_pooling=(kind == "HashPooled"))
+        servers = [("h", 1)] if kind != "Hash2" else [("h", 1), ("g", 2), ("f", 3)]
+        if kind == "Hash2":
+            # one reference server per address: a key lives on exactly one of them, so the logical map is their union
+            srvs = {}
+            srv = type("Union", (), {})()
+            srv.store = type("S", (), {"now": 1_000_000_000})()
+            srv.wire_log = []
+
+            def feed(conn, data, _srvs=srvs, _u=srv):
+                s_ = _srvs.setdefault(conn.addr, RefServer())
+                s_.store.now = _u.store.now
+                return [s_.feed(conn.id, data)]
+            world.server = feed
+        client = HashClient(servers, socket_module=FakeSocketModule(world), default_noreply=dnr, key_prefix=pfx, use_pooling=(kind == "HashPooled"))
     cfg = cfg_tok(dnr=dnr, pfx=pfx)
     spec_lines = [f"srv.reset id=1"]
     cs_lines = [f"srv.reset id=2"]
@@ -163,7 +176,9 @@ def main(argv):
             continue
         if any(c["op"] in ("flush_all",) for c in h):
             continue          # HashClient.flush_all is a broadcast with its own noreply handling: not a key-addressed call
-        kind = ("Pooled", "Hash1", "HashPooled")[i % 3]
+        kind = ("Pooled", "Hash1", "HashPooled", "Hash2")[i % 4]
+        if kind == "Hash2" and any(c["op"] in ("cas", "gets", "gats", "gets_many") for c in h):
+            kind = "Hash1"       # cas tokens are per server: with several servers they are not those of one logical map
         run_history(Client, h, dnr=(i % 2 == 1), pfx=(b"" if i % 3 else b"ns:"), idx=len(hists) + i, out=out, kind=kind)
         nwrap += 1
     ctx.count("wrapper-histories", nwrap)
